@@ -822,7 +822,20 @@ class ProgGen(object):
             final = self.block(depth + 1, scope, 1) if (not handlers or rng.random() < 0.4) else []
             orelse = self.block(depth + 1, scope, 1) if handlers and rng.random() < 0.3 else []
             return [ast.Try(body, handlers, orelse, final)]
-        if r < 0.92 and depth < 2:
+        if r < 0.82:
+            # with ctx(e) [as w]: the header expressions are template code as well
+            item = ast.withitem(ast.Call(self.name('ctx'), [self.e(scope)], []), None)
+            inner_scope = list(scope)
+            if rng.random() < 0.7:
+                wn = self.fresh('loc%d_' % self.infunc) if self.infunc else rng.choice(['w', 't'])
+                item.optional_vars = self.name(wn, True)
+                scope.append(wn)
+                inner_scope.append(wn)
+            items = [item]
+            if rng.random() < 0.2:
+                items.append(ast.withitem(ast.Call(self.name('ctx'), [self.e(inner_scope)], []), None))
+            return [ast.With(items, self.block(depth + 1, inner_scope))]
+        if r < 0.93 and depth < 2:
             return self.funcdef(depth, scope)
         if r < 0.96 and depth < 1:
             return self.classdef(depth, scope)
@@ -841,7 +854,8 @@ class ProgGen(object):
         pnames = rng.sample(['p', 'q', 'r'], rng.choice([0, 1, 2]))
         ndef = rng.randrange(0, len(pnames) + 1)
         kwonly = [ast.arg('kw')] if rng.random() < 0.2 else []
-        args = ast.arguments(posonlyargs=[], args=[ast.arg(x) for x in pnames], vararg=ast.arg('rest') if rng.random() < 0.15 else None,
+        ann = lambda: self.e(scope) if rng.random() < 0.25 else None
+        args = ast.arguments(posonlyargs=[], args=[ast.arg(x, ann()) for x in pnames], vararg=ast.arg('rest') if rng.random() < 0.15 else None,
                              kwonlyargs=kwonly, kw_defaults=[self.e(scope) for _ in kwonly], kwarg=None,
                              defaults=[self.e(scope) for _ in range(ndef)])
         # names visible in the body: parameters, names of the enclosing function scopes assigned *before* the def
@@ -853,7 +867,7 @@ class ProgGen(object):
         body.append(ast.Return(self.e(inner)))
         self.infunc -= 1
         kw = dict(type_params=[]) if hasattr(ast, 'TypeVar') else {}
-        fd = ast.FunctionDef(fname, args, body, [], None, None, **kw)
+        fd = ast.FunctionDef(fname, args, body, [], ann(), None, **kw)
         res = self.fresh('res')
         call = ast.Call(self.name(fname), [self.e(scope) for _ in range(len(pnames) - rng.randrange(0, ndef + 1))], [])
         scope.extend([fname, res])
